@@ -25,7 +25,7 @@ func (it *Interp) freshValue(t types.Type, path string, mk leafMaker, o freshOpt
 	case "math/big.Int":
 		return IntV{mk(path, SInt, "bigint")}
 	case "time.Time":
-		return TimeV{mk(path, SInt, "time")}
+		return TimeV{it.plausibleTime(mk(path, bvSort(timeW), "time"))}
 	case "github.com/cosmos/cosmos-sdk/types.Int":
 		// struct{ i *big.Int }
 		st := t.Underlying().(*types.Struct)
@@ -140,7 +140,7 @@ func (it *Interp) opaqueOfType(t types.Type, tag string) Val {
 	case "math/big.Int":
 		return IntV{Var(it.p.freshName(tag), SInt)}
 	case "time.Time":
-		return TimeV{Var(it.p.freshName(tag), SInt)}
+		return TimeV{Var(it.p.freshName(tag), bvSort(timeW))}
 	}
 	switch u := t.Underlying().(type) {
 	case *types.Basic:
@@ -210,3 +210,15 @@ func (it *Interp) opaqueOfType(t types.Type, tag string) Val {
 	return nil
 }
 
+
+// plausibleTime restricts a symbolic instant to [1970, 2116) (0 <= ns < 2^62): a stated bound of every check that uses time.
+func (it *Interp) plausibleTime(t *Term) *Term {
+	it.p.assertAxiom(And(BVCmp("bvsge", t, BVu(timeW, 0)), BVCmp("bvslt", t, BV(timeW, pow2(62)))))
+	return t
+}
+
+func (it *Interp) freshTime(tag string) *Term {
+	v := Var(it.p.freshName(tag), bvSort(timeW))
+	it.p.sources = append(it.p.sources, Source{Kind: "time", Tag: tag, Terms: []*Term{v}})
+	return it.plausibleTime(v)
+}
